@@ -176,6 +176,11 @@ def coq_eval(name, preamble, body_lines, result_defs, timeout=900):
         for d in result_defs:
             f.write('Goal True. idtac "@@BEGIN %s". Abort.\nEval vm_compute in %s.\n' % (d, d))
         f.write('Goal True. idtac "@@END". Abort.\n')
+    # every project module the case file imports is brought up to date first (a tie evaluated against a compiled
+    # file older than the regenerated gen/*.v would silently describe yesterday's source)
+    ok, mout = coq_make(required_targets(preamble))
+    if not ok:
+        raise Fail("building what %s imports failed:\n%s" % (path, json.dumps(first_coq_error(mout))))
     rc, out, dt = coqc_file(path, timeout=timeout)
     if rc != 0:
         raise Fail("coqc failed on %s:\n%s" % (path, out[-3000:]))
@@ -184,6 +189,18 @@ def coq_eval(name, preamble, body_lines, result_defs, timeout=900):
     for i in range(1, len(parts) - 1, 2):
         res[parts[i]] = parts[i + 1].split("@@END")[0].strip()
     return res, dt
+
+
+def required_targets(text):
+    """.vo targets of the project modules named by `From BT|BTGen Require [Import|Export] A B.C ...` in text"""
+    targets = []
+    for root, mods in re.findall(r'From\s+(BT|BTGen)\s+Require\s+(?:Import\s+|Export\s+)?(.*?)\.(?:\s|$)', text, re.S):
+        for m in mods.split():
+            rel = m.replace(".", "/") + ".vo"
+            t = ("theories/" if root == "BT" else "gen/") + rel
+            if os.path.exists(os.path.join(COQ, t[:-1])) and t not in targets:
+                targets.append(t)
+    return targets
 
 
 def coq_eval_sharded(name, preamble, rows, rows_def, tail_lines, result_def, shard=120, timeout=1500):
